@@ -6,6 +6,7 @@ import (
 	"hash/fnv"
 	"math/rand"
 	"os"
+	"runtime/debug"
 	"sort"
 	"strconv"
 	"strings"
@@ -82,10 +83,20 @@ func (h *hist) report(sig, what string) {
 // guard runs fn; a panic is a violation panic/<where>/<site>.  A panic outside a
 // range scan leaves the store in an unknown state and ends the history.
 func (h *hist) guard(where string, fn func()) bool {
-	p := h.r.Guard(where+"/"+h.sp.site, h.rec, fn)
+	p := h.r.Guard(where+"/"+h.sp.site, h.rec, func() {
+		if os.Getenv("C10_DEBUG") != "" {
+			defer func() {
+				if e := recover(); e != nil {
+					fmt.Fprintf(os.Stderr, "PANIC in %s of %s: %v\n%s\n", where, h.id, e, debug.Stack())
+					panic(e)
+				}
+			}()
+		}
+		fn()
+	})
 	if p {
 		h.counts["panics_"+where]++
-		if where != "find" {
+		if !strings.HasPrefix(where, "find") {
 			h.dead = true
 		}
 	}
@@ -483,7 +494,11 @@ func (h *hist) doFind(start, end, sd, ed string, limit int, sigOverride string) 
 	var got []pair
 	var iterIssue string
 	var closeErr, closeErr2 error
-	if h.guard("find", func() {
+	findWhere := "find"
+	if end != "" && start > end {
+		findWhere = "find-inverted" // own signature class: an inverted range must be empty, not special
+	}
+	if h.guard(findWhere, func() {
 		it := h.in.kv.Find(start, end)
 		closed := false
 		defer func() {
